@@ -795,3 +795,116 @@ def c04(work, tier, seed):
                        "'answered' is judged at quiescence (every search goroutine exited or parked at a stub gate, every forwarder exited, loop idle)",
                        "real engines: morlock (hash on/off), TUROCHAMP, SARGON, BERNSTEIN with noise and books on/off, depths 1-2, movetime, clocks, infinite+stop"]
     return rep.finish(work)
+
+
+# ----------------------------------------------------------------------------------------
+@check("C15")
+def c15(work, tier, seed):
+    import subprocess
+    import shutil
+    rep = Report("C15", tier, seed)
+    quick = tier == "quick"
+    vh = vlib.build_harness(work)
+    # (1) the model of the harness: all interleavings of search goroutine, cancel helper, consumers and Halt callers
+    runs = []
+    for limit, mate in ((0, 0), (2, 0), (3, 2), (0, 3), (2, 3)) if not quick else ((0, 0), (3, 2), (2, 3)):
+        consts = {"MaxDepth": 4 if quick else 5, "Limit": limit, "MateAt": mate, "Callers": "{1, 2}" if quick else "{1, 2, 3}", "Grid": 400 if quick else 4000}
+        cfg = vlib.cfg_text(spec="FairSpec", constants=consts,
+                            invariants=["StreamInOrder", "StopsWhenItShould", "NeverPastLimit", "HaltAfterDepth1", "HaltAtLeastReported", "HaltReturnsCompleted"],
+                            properties=["HaltedExits", "HaltReturnsEventually"])
+        r = vlib.tlc(work, "MCIterative", cfg, workers=8, timeout=3000, heap="8g", name="MCIterative-%d-%d" % (limit, mate))
+        vlib.need_tlc_ok(r, "MCIterative limit=%d mate=%d" % (limit, mate))
+        rep.add_tlc(r)
+        runs.append({"limit": limit, "mate": mate, "states": r.distinct})
+    rep.extra["mc_iterative"] = runs
+    # (2) unbounded proof of the time-control lemma (TLAPS); reported either way, the TLC grid is the baseline
+    d = work.sub("tlaps")
+    for f in ("TimeControl.tla", "TimeControlProof.tla"):
+        shutil.copy(os.path.join(vlib.SPEC, f), d)
+    try:
+        p = subprocess.run(["tlapm", "--threads", "8", "TimeControlProof.tla"], cwd=d, capture_output=True, text=True, timeout=600)
+        txt = p.stdout + p.stderr
+        import re
+        m = re.search(r"All (\d+) obligations? proved", txt)
+        rep.extra["tlaps_time_control_lemma"] = ("proved: %s obligations" % m.group(1)) if m else ("not proved: " + txt[-300:])
+    except Exception as ex:  # noqa
+        rep.extra["tlaps_time_control_lemma"] = "not run: %s" % ex
+    # (3) conformance
+    jobs = []
+    for i in range(3 if quick else 12):
+        jobs.append(("stream%d" % i, ["-mode", "stream", "-seed", seed * 100 + i, "-n", 10 if quick else 80]))
+    for i in range(3 if quick else 12):
+        jobs.append(("halt%d" % i, ["-mode", "halt", "-seed", seed * 100 + 30 + i, "-n", 60 if quick else 1500]))
+    jobs.append(("limits", ["-mode", "limits", "-seed", seed, "-n", 4000 if quick else 200000]))
+
+    def one(job):
+        name, args = job
+        trace = work.path(name + ".ndjson")
+        vlib.run_harness(work, vh, ["iterative"] + args + ["-out", trace], timeout=3000)
+        r = vlib.validate_trace(work, "TraceIter", ["C15"], trace, timeout=3000, heap="4g")
+        c = {}
+        for line in open(trace):
+            for key in ("iterrun", "iterhalt", "limits"):
+                if '"op":"%s"' % key in line:
+                    c[key] = c.get(key, 0) + 1
+            if '"op":"iterrun"' in line:
+                e = json.loads(line)
+                if e["halted"]:
+                    c["run-halted"] = c.get("run-halted", 0) + 1
+                if any(x["score"]["t"] == "M" for x in e["direct"]):
+                    c["run-with-mate"] = c.get("run-with-mate", 0) + 1
+                if e["tt"]:
+                    c["run-with-table"] = c.get("run-with-table", 0) + 1
+        r.stats = c
+        return r
+    results = vlib.run_many(one, jobs)
+    for r in results:
+        rep.counters(r.stats)
+    rep.traces = rep.cov.get("iterrun", 0) + rep.cov.get("iterhalt", 0)
+    rep.sample(vlib.read_line(results[0].trace, 1)[:900])
+    rep.sample(vlib.read_line(results[-1].trace, 5)[:300])
+    vlib.absorb_trace_results(rep, results)
+    require(rep, ["iterrun", "iterhalt", "limits", "run-halted", "run-with-mate"], "C15")
+    rep.assumptions = ["the published depths come from the hooks (exact even if the capacity-1 PV channel drops an intermediate depth for the consumer); scores/PVs are compared for the depths the draining consumer received",
+                       "the oracle for each depth is the same search run directly at that depth on a fresh fork without a table (itself validated against Search.tla by C03); PVs are compared only with the table off",
+                       "'reported before the halt was requested' is read off the controller's event sequence: iter.published events recorded before the harness's halt.call mark",
+                       "time-control limits: nanosecond-exact for remaining times below 2^31 ns, whole-millisecond multiples of 2*(moves+1) up to 24 h; the unbounded lemma hard <= remaining is proved by TLAPS"]
+    return rep.finish(work)
+
+
+# ----------------------------------------------------------------------------------------
+@check("C18")
+def c18(work, tier, seed):
+    rep = Report("C18", tier, seed)
+    quick = tier == "quick"
+    vh = vlib.build_harness(work)
+    # the model side: searching never changes the engine's game and is a function of its inputs --
+    # Search.tla's reference value is a function by construction; MCSearch checks the algorithm returns it
+    mc_search(work, rep, "quick", ["FullWindowExact"])
+    shards = 6 if quick else 16
+
+    def one(i):
+        trace = work.path("det%d.ndjson" % i)
+        vlib.run_harness(work, vh, ["determinism", "-seed", seed * 100 + i, "-n", 12 if quick else 160, "-out", trace], timeout=3300)
+        r = vlib.validate_trace(work, "TraceDet", ["C18"], trace, timeout=3000, heap="4g")
+        c = {}
+        for line in open(trace):
+            k = line.find('"how":"')
+            h = "how:" + line[k + 7:line.find('"', k + 7)]
+            c[h] = c.get(h, 0) + 1
+            if "noise=off" not in line:
+                c["noise-on"] = c.get("noise-on", 0) + 1
+        r.stats = c
+        return r
+    results = vlib.run_many(one, range(shards))
+    for r in results:
+        rep.counters(r.stats)
+    rep.traces = sum(r.nlines for r in results)
+    rep.sample(vlib.read_line(results[0].trace, 1)[:900])
+    vlib.absorb_trace_results(rep, results)
+    require(rep, ["how:first", "how:after-unrelated-search", "how:repeat-same-engine", "how:new-engine", "how:other-hash-seed",
+                  "how:concurrent", "noise-on"], "C18")
+    rep.assumptions = ["key = (engine, hash on/off, start FEN, move list, depth, noise amount and seed); with the hash table on the game is set up anew before every run (no table carried over)",
+                       "the hash seed is NOT part of the key when noise is off: results must not depend on it",
+                       "engines: morlock, TUROCHAMP, SARGON, BERNSTEIN as their main() builds them; four engines run concurrently in the concurrent phase"]
+    return rep.finish(work)
